@@ -1,1 +1,186 @@
 // Kani harnesses compiled inside rs-matter/src/transport/plain_hdr.rs (module `verif_kani`).
+
+mod c03 {
+    use super::*;
+
+    const MSG_FLAGS_VALID: u8 = 0x07;
+    const SEC_FLAGS_VALID: u8 = 0x01 | 0x20 | 0x40 | 0x80;
+
+    /// Encoded length of a header with message flags `f` (reference).
+    fn ref_len(f: u8) -> usize {
+        8 + if f & 0x04 != 0 { 8 } else { 0 }
+            + match f & 0x03 {
+                1 => 8,
+                2 => 2,
+                _ => 0,
+            }
+    }
+
+    fn le16(b: &[u8], at: usize) -> u16 {
+        (b[at] as u16) | ((b[at + 1] as u16) << 8)
+    }
+
+    fn le32(b: &[u8], at: usize) -> u32 {
+        (b[at] as u32) | ((b[at + 1] as u32) << 8) | ((b[at + 2] as u32) << 16) | ((b[at + 3] as u32) << 24)
+    }
+
+    fn le64(b: &[u8], at: usize) -> u64 {
+        (le32(b, at) as u64) | ((le32(b, at + 4) as u64) << 32)
+    }
+
+    /// An arbitrary header. Representation invariant: the two bitflag bytes only carry declared
+    /// bits (they are only ever produced by `from_bits` and by the setters).
+    fn any_hdr() -> PlainHdr {
+        let f: u8 = kani::any();
+        let s: u8 = kani::any();
+        kani::assume(f & !MSG_FLAGS_VALID == 0);
+        kani::assume(s & !SEC_FLAGS_VALID == 0);
+        PlainHdr {
+            flags: MsgFlags::from_bits_retain(f),
+            sess_id: kani::any(),
+            sec_flags: SecFlags::from_bits_retain(s),
+            ctr: kani::any(),
+            src_nodeid: kani::any(),
+            dst_nodeid: kani::any(),
+        }
+    }
+
+    /// encode: total on a `MAX_LEN` buffer, exact length, exact byte layout; decode(encode(h))
+    /// yields the identical observable fields whatever the decoder's previous content was, and
+    /// consumes exactly the encoded bytes. Every flag combination, every field value.
+    // TIER: quick
+    // KIND: complete
+    #[kani::proof]
+    fn c03_plain_hdr_roundtrip() {
+        let h = any_hdr();
+        let f = h.flags.bits();
+
+        let mut out = [0u8; PlainHdr::MAX_LEN];
+        let n = {
+            let mut wb = WriteBuf::new(&mut out);
+            let r = h.encode(&mut wb);
+            kani::assert(r.is_ok(), "C03.plain.encode_total_on_max_len");
+            wb.as_slice().len()
+        };
+
+        kani::assert(n == ref_len(f), "C03.plain.encode_len");
+        kani::assert(n <= PlainHdr::MAX_LEN - 2, "C03.plain.encode_len_bound");
+        kani::assert(out[0] == f && out[3] == h.sec_flags.bits(), "C03.plain.encode_flag_bytes");
+        kani::assert(le16(&out, 1) == h.sess_id && le32(&out, 4) == h.ctr, "C03.plain.encode_fixed_fields");
+        let mut at = 8;
+        if f & 0x04 != 0 {
+            kani::assert(le64(&out, at) == h.src_nodeid, "C03.plain.encode_src");
+            at += 8;
+        }
+        if f & 0x03 == 1 {
+            kani::assert(le64(&out, at) == h.dst_nodeid, "C03.plain.encode_dst_unicast");
+        } else if f & 0x03 == 2 {
+            kani::assert(le16(&out, at) == h.dst_nodeid as u16, "C03.plain.encode_dst_group");
+        }
+
+        // decode into a header with arbitrary previous content
+        let mut d = any_hdr();
+        let extra: usize = kani::any();
+        kani::assume(extra <= PlainHdr::MAX_LEN - n);
+        let (r, consumed, left) = {
+            let mut pb = ParseBuf::new(&mut out[..n + extra]);
+            let r = d.decode(&mut pb);
+            (r, pb.read_off(), pb.as_slice().len())
+        };
+        kani::assert(r.is_ok(), "C03.plain.decode_of_encoded_ok");
+        kani::assert(consumed == n && left == extra, "C03.plain.decode_consumes_exactly_header");
+        kani::assert(d.flags.bits() == f, "C03.plain.rt_flags");
+        kani::assert(d.sec_flags.bits() == h.sec_flags.bits(), "C03.plain.rt_sec_flags");
+        kani::assert(d.sess_id == h.sess_id && d.ctr == h.ctr, "C03.plain.rt_fixed_fields");
+        kani::assert(d.get_src_nodeid() == h.get_src_nodeid(), "C03.plain.rt_src");
+        kani::assert(d.get_dst_unicast_nodeid() == h.get_dst_unicast_nodeid(), "C03.plain.rt_dst_unicast");
+        kani::assert(d.get_dst_groupcast_nodeid() == h.get_dst_groupcast_nodeid(), "C03.plain.rt_dst_group");
+        kani::assert(d.is_encrypted() == h.is_encrypted(), "C03.plain.rt_encryption_kind");
+        kani::assert(
+            d.is_group_session() == h.is_group_session() && d.is_control_msg() == h.is_control_msg(),
+            "C03.plain.rt_group_control"
+        );
+        // the getters expose a node id exactly when the flag says it is there
+        kani::assert(h.get_src_nodeid().is_some() == (f & 0x04 != 0), "C03.plain.src_present_iff_flag");
+        kani::assert(h.get_dst_unicast_nodeid().is_some() == (f & 0x03 == 1), "C03.plain.dst_unicast_iff_dsiz1");
+        kani::assert(h.get_dst_groupcast_nodeid().is_some() == (f & 0x03 == 2), "C03.plain.dst_group_iff_dsiz2");
+
+        kani::cover!(f == 0, "no optional field");
+        kani::cover!(f == 0x05, "src + unicast dst");
+        kani::cover!(f == 0x06, "src + group dst");
+        kani::cover!(f == 0x07, "reserved DSIZ 3");
+        kani::cover!(h.sec_flags.bits() == SEC_FLAGS_VALID, "all security flags");
+        kani::cover!(extra > 0, "trailing bytes");
+    }
+
+    /// decode is total on arbitrary bytes: never panics, accepts exactly the byte strings that
+    /// carry only declared flag bits and are long enough, then reports the reference fields,
+    /// and re-encoding the result reproduces the consumed bytes bit for bit (the header has one
+    /// encoding only, so "the bytes as received" and "the fields decoded" carry the same
+    /// information).
+    // TIER: quick
+    // KIND: bounded (input length <= 26 bytes = PlainHdr::MAX_LEN; the decoder reads at most 24)
+    #[kani::proof]
+    fn c03_plain_hdr_decode_total() {
+        let mut bytes: [u8; PlainHdr::MAX_LEN] = kani::any();
+        let orig = bytes;
+        let len: usize = kani::any();
+        kani::assume(len <= PlainHdr::MAX_LEN);
+
+        let mut d = any_hdr();
+        let (r, consumed) = {
+            let mut pb = ParseBuf::new(&mut bytes[..len]);
+            let r = d.decode(&mut pb);
+            (r, pb.read_off())
+        };
+
+        let flags_ok = orig[0] & !MSG_FLAGS_VALID == 0 && orig[3] & !SEC_FLAGS_VALID == 0;
+        let expect_ok = len >= 8 && flags_ok && len >= ref_len(orig[0]);
+        kani::assert(r.is_ok() == expect_ok, "C03.plain.decode_ok_iff_wellformed");
+        kani::assert(bytes == orig, "C03.plain.decode_does_not_write");
+
+        if r.is_ok() {
+            let f = orig[0];
+            kani::assert(consumed == ref_len(f), "C03.plain.decode_consumed_len");
+            kani::assert(consumed <= PlainHdr::MAX_LEN - 2, "C03.plain.decode_consumed_bound");
+            kani::assert(d.flags.bits() == f && d.sec_flags.bits() == orig[3], "C03.plain.decode_flag_bytes");
+            kani::assert(d.sess_id == le16(&orig, 1) && d.ctr == le32(&orig, 4), "C03.plain.decode_fixed_fields");
+            let mut at = 8;
+            if f & 0x04 != 0 {
+                kani::assert(d.get_src_nodeid() == Some(le64(&orig, at)), "C03.plain.decode_src");
+                at += 8;
+            } else {
+                kani::assert(d.get_src_nodeid().is_none(), "C03.plain.decode_no_src");
+            }
+            if f & 0x03 == 1 {
+                kani::assert(d.get_dst_unicast_nodeid() == Some(le64(&orig, at)), "C03.plain.decode_dst_unicast");
+            } else if f & 0x03 == 2 {
+                kani::assert(d.get_dst_groupcast_nodeid() == Some(le16(&orig, at)), "C03.plain.decode_dst_group");
+            } else {
+                kani::assert(
+                    d.get_dst_unicast_nodeid().is_none() && d.get_dst_groupcast_nodeid().is_none(),
+                    "C03.plain.decode_no_dst"
+                );
+            }
+
+            let mut out = [0u8; PlainHdr::MAX_LEN];
+            let n = {
+                let mut wb = WriteBuf::new(&mut out);
+                let re = d.encode(&mut wb);
+                kani::assert(re.is_ok(), "C03.plain.reencode_ok");
+                wb.as_slice().len()
+            };
+            kani::assert(n == consumed, "C03.plain.reencode_len");
+            let i: usize = kani::any();
+            if i < n {
+                kani::assert(out[i] == orig[i], "C03.plain.reencode_is_received_bytes");
+            }
+        }
+
+        kani::cover!(r.is_ok() && consumed == 24, "longest header");
+        kani::cover!(r.is_ok() && consumed == 8, "shortest header");
+        kani::cover!(r.is_err() && len >= 8 && flags_ok, "truncated optional field");
+        kani::cover!(r.is_err() && len >= 8 && !flags_ok, "undeclared flag bit");
+        kani::cover!(r.is_err() && len < 8, "shorter than the fixed part");
+    }
+}
